@@ -94,6 +94,46 @@ fn eval_cert(
                 }
             }
         }
+        // O1b: the label on the signature.  Identities are Ed25519 keys, so the only handshake
+        // signature that proves anything is a valid Ed25519 signature by the certificate's key:
+        // the same bytes (or junk) labelled with any other scheme, and junk labelled Ed25519,
+        // must be refused by every verifier for every certificate it accepts (TLS 1.3 and 1.2 entry points).
+        if pid.is_some() && (cc || sc || ec) {
+            use rustls::SignatureScheme as S;
+            let good = sign(k, &msg_s);
+            let junk: [&[u8]; 3] = [&[0u8; 64], &[], &good[..63]];
+            let mut forged: Vec<(S, Vec<u8>)> = Vec::new();
+            for sch in [S::ECDSA_NISTP256_SHA256, S::ECDSA_NISTP384_SHA384, S::ECDSA_NISTP521_SHA512, S::RSA_PSS_SHA256, S::RSA_PSS_SHA512, S::RSA_PKCS1_SHA256, S::ECDSA_SHA1_Legacy, S::ED448, S::Unknown(0), S::Unknown(0x0808), S::Unknown(0xffff)] {
+                forged.push((sch, good.clone()));
+                forged.push((sch, vec![0u8; 64]));
+                forged.push((sch, vec![]));
+            }
+            for j in junk {
+                forged.push((S::ED25519, j.to_vec()));
+            }
+            for (sch, bytes) in forged {
+                let d = adversary::dss(sch, &bytes);
+                *counters.entry("mislabelled_or_junk_signature_checks".into()).or_default() += 6;
+                for (which, accepted, sig_ok) in [
+                    ("client-cert verifier (TLS 1.3)", cc, v.client.verify_tls13_signature(&msg_s, &c, &d).is_ok()),
+                    ("client-cert verifier (TLS 1.2)", cc, v.client.verify_tls12_signature(&msg_s, &c, &d).is_ok()),
+                    ("server-cert verifier (TLS 1.3)", sc, v.server.verify_tls13_signature(&msg_s, &c, &d).is_ok()),
+                    ("server-cert verifier (TLS 1.2)", sc, v.server.verify_tls12_signature(&msg_s, &c, &d).is_ok()),
+                    ("pinned server-cert verifier (TLS 1.3)", ec, exp.verify_tls13_signature(&msg_s, &c, &d).is_ok()),
+                    ("pinned server-cert verifier (TLS 1.2)", ec, exp.verify_tls12_signature(&msg_s, &c, &d).is_ok()),
+                ] {
+                    if accepted && sig_ok {
+                        return Some((
+                            format!(
+                                "{which}: certificate ({class}) accepted together with a handshake 'signature' of {} bytes labelled {sch:?} that is not a valid Ed25519 signature by the certificate's key - the remote end is attributed {} without proving it holds that key",
+                                bytes.len(), pid.map(|p| pid_hex(&p)).unwrap_or_default()
+                            ),
+                            json!({"class": class, "cert": hex::encode(cert), "scheme": format!("{sch:?}"), "signature": hex::encode(&bytes)}),
+                        ));
+                    }
+                }
+            }
+        }
         // A wrong-key signature accepted for an honest party's certificate = impersonation
         if let Some(p) = pid {
             if honest_ids.contains(&p) && p != kid && (ok_client && cc || ok_server && sc) {
@@ -610,6 +650,6 @@ pub fn run(ctx: &Ctx) -> i32 {
         extra: Default::default(),
         exhaustive: None,
         min_signatures: 8,
-        required_counters: vec!["verifier_inputs", "accepted_and_signed", "attributions_checked", "adversary_rejected", "adversary_admitted_as_own_identity"],
+        required_counters: vec!["verifier_inputs", "mislabelled_or_junk_signature_checks", "accepted_and_signed", "attributions_checked", "adversary_rejected", "adversary_admitted_as_own_identity"],
     })
 }
